@@ -82,6 +82,7 @@ Section Steps.
     match goal with H : negb (is_nil (l_bids ?l)) = false |- _ =>
       assert (Hb : l_bids l = []) by (destruct (l_bids l); [reflexivity|discriminate]) end.
     finish_ok H. eapply (T_dellend cfg _ _ _ _ _ HI1); try (intros k; apply pget_pset2); try eassumption; try reflexivity.
+    eapply unref_nobids; eassumption.
   Qed.
 
   Lemma withdraw_inv st user lid denom amt ipb st' :
@@ -204,7 +205,7 @@ Section Steps.
   Proof.
     intros (HI & HS) H. pose proof (iterate_borrow_inv _ _ _ _ HI H) as HI'.
     apply iterate_borrow_spec in H as (b0 & Hb0 & ->). split; [split; [exact HI'|]|reflexivity].
-    cbn [lends borrows with_books]. eapply S_bor_upd; [exact HS|exact Hb0|reflexivity|reflexivity|].
-    cbn [iter_b upd_borrow b_in]. exact (proj1 (HS _ _ Hb0)).
+    cbn [lends borrows with_books]. eapply S_bor_upd; [exact HS|exact Hb0|reflexivity|reflexivity|reflexivity|].
+    cbn [iter_b upd_borrow b_in]. intros Hq. exact (proj1 (HS _ _ Hb0 Hq)).
   Qed.
 End Steps.
